@@ -98,6 +98,12 @@ func genTroublePlan(r *rand.Rand) *ProxyPlan {
 			rs.Chunk = 10000
 		}
 		rs.EvictOnCond = r.IntN(4) == 0
+		if r.IntN(6) == 0 {
+			// an origin that refuses ranges: the proxy (retry switch on) asks again without Range, and
+			// what it is answered then is the client's answer, whatever the cache can or cannot store
+			rs.RangeMode = "416"
+			p.Retry416 = true
+		}
 		if r.IntN(3) == 0 {
 			// the representation changes (and grows) while it is being served: a Range request that
 			// the origin answers in full stores the new version under the readers of the old one
